@@ -1,6 +1,7 @@
 import SvModel.Lemmas.OriginMap
 import SvModel.Core.Pp
 import SvModel.Lemmas.Walker
+import SvModel.Lemmas.OriginPaths
 /-!
 # C03 — the origin map sends every output byte back to where it came from (M4 theorems)
 
@@ -152,5 +153,56 @@ theorem C03_position_no_origin (C : Cfg) (recI) (recU) (inp : Input) (s path : B
     | (left; trivial)
     | trivial
     | (right; exact ⟨_, rfl⟩)
+
+
+/-! ### no other file: an origin never names a file that was not read -/
+
+theorem omap_get_mem : ∀ (m : OMap) (k : Range) (v : Origin), m.get k = some v → ∃ k', (k', v) ∈ m := by
+  intro m
+  induction m with
+  | nil => intro k v h; simp [OMap.get] at h
+  | cons hd tl ih =>
+    intro k v h
+    obtain ⟨k', v'⟩ := hd
+    unfold OMap.get at h
+    split at h
+    · cases h
+    · simp only [Option.some.injEq] at h; subst h; exact ⟨k', by simp⟩
+    · obtain ⟨k2, hk2⟩ := ih k v h; exact ⟨k2, by simp [hk2]⟩
+
+/-- the origin paths of the macros the caller supplied -/
+def callerPaths (d : Defines) (p : Bytes) : Prop :=
+  ∃ kv ∈ d, ∃ df dt r, kv.2 = some df ∧ df.text = some dt ∧ dt.origin = some (p, r)
+
+/-- **An origin lookup never names any other file**: for every successful run (every input, file system, table, flags, fuel) and every output
+    position, the file that `origin(pos)` names is the file being preprocessed, a file that exists (readable) in the file system — i.e. one that
+    an `include can have read — or the origin recorded in a macro the caller supplied. (`Lemmas/OriginPaths.lean: walk_paths`, induction on fuel
+    through event loop ↔ `include ↔ macro expansion; all twelve arms.) -/
+theorem C03_no_other_file (fs : Fs) (incs : List Bytes) (fuel : Nat) (s path : Bytes) (d : Defines) (ii sc : Bool) (rd id : Nat)
+    (o : POut) (d' : Defines) (h : preprocessStr ⟨ppKinds, grammar, fs, incs⟩ fuel s path d ii sc rd id = .ok (o, d'))
+    (pos : Nat) (p : Bytes) (off : Nat) (ho : o.origin pos = some (p, off)) :
+    p = path ∨ (∃ c, fs.find p = some (some c)) ∨ callerPaths d p := by
+  let A : Bytes → Prop := fun q => q = path ∨ (∃ c, fs.find q = some (some c)) ∨ callerPaths d q
+  have hw := (walk_paths A ⟨ppKinds, grammar, fs, incs⟩ (fun q c hq => .inr (.inl ⟨c, hq⟩)) fuel).1 s path d ii sc rd id o d' (.inl rfl)
+    (fun kv hkv df dt q r h1 h2 h3 => .inr (.inr ⟨kv, hkv, df, dt, r, h1, h2, h3⟩)) h
+  unfold POut.origin at ho
+  split at ho
+  · rename_i og hg
+    split at ho
+    · rename_i q r hs
+      simp only [Option.some.injEq] at ho
+      obtain ⟨k', hk'⟩ := omap_get_mem _ _ _ hg
+      have := hw.1 (k', og) hk' q r hs
+      cases ho; exact this
+    · cases ho
+  · cases ho
+
+/-- the same for the macros of the returned table: each records the file being preprocessed, a readable file of the file system, or what the
+    caller supplied -/
+theorem C03_define_origins_named_files (fs : Fs) (incs : List Bytes) (fuel : Nat) (s path : Bytes) (d : Defines) (ii sc : Bool) (rd id : Nat)
+    (o : POut) (d' : Defines) (h : preprocessStr ⟨ppKinds, grammar, fs, incs⟩ fuel s path d ii sc rd id = .ok (o, d')) :
+    DefsIn (fun q => q = path ∨ (∃ c, fs.find q = some (some c)) ∨ callerPaths d q) d' :=
+  ((walk_paths _ ⟨ppKinds, grammar, fs, incs⟩ (fun q c hq => .inr (.inl ⟨c, hq⟩)) fuel).1 s path d ii sc rd id o d' (.inl rfl)
+    (fun kv hkv df dt q r h1 h2 h3 => .inr (.inr ⟨kv, hkv, df, dt, r, h1, h2, h3⟩)) h).2
 
 end Sv
